@@ -3,7 +3,7 @@
    exactly the answers written in order), the header round trip (an answer's hop-by-hop id survives encode/decode) and
    C11 (client: an answer reaches the waiter with its hop-by-hop id). *)
 Require Import DV.Base.Bytes DV.Spec.Wire DV.Model.Avp DV.Model.Message DV.Model.Stream DV.Model.Server DV.Model.Client DV.Model.EndToEnd
-  DV.Proofs.DecSound DV.Proofs.StreamFacts DV.Proofs.ServerFacts DV.Proofs.ClientFacts.
+  DV.Proofs.DecSound DV.Proofs.HeaderFacts DV.Proofs.StreamFacts DV.Proofs.ServerFacts DV.Proofs.ClientFacts.
 From Coq Require Import Arith.
 
 (* ---------- the ghost fields evolve independently of what the reader does ---------- *)
@@ -169,22 +169,6 @@ Proof.
     rewrite Hns in S2. rewrite (Hsh _ S2), S1, (Hwh i Hi) in S3.
     assert (fid f = i) by (apply (proj1 (NoDup_nth hs 0%N) Hnd); assumption).
     destruct f as [hf ff]. cbn [hop fid] in *. subst. rewrite (Hwh _ Hi). reflexivity.
-Qed.
-
-(* ---------- an answer's hop-by-hop id survives the wire ---------- *)
-Lemma hbh_survives lim d a bs a' :
-  enc_msg a = Ok bs -> (m_hbh a < 4294967296)%N -> dec_msg lim d bs = Ok a' -> m_hbh a' = m_hbh a.
-Proof.
-  unfold enc_msg. destruct (msg_enc_ok a); [|discriminate]. intros E Hlt Hd. inversion E; subst bs; clear E.
-  destruct (dec_msg_inv _ _ _ _ Hd) as (rest & r' & Eb & _ & _ & _ & _ & _ & Hh' & _).
-  unfold enc_msg_raw, enc_hdr in Eb.
-  apply (f_equal (fun l => firstn 4 (skipn 12 l))) in Eb.
-  assert (L24 : forall n, length (be24 n) = 3%nat) by reflexivity.
-  assert (L32 : forall n, length (be32 n) = 4%nat) by reflexivity.
-  assert (G : forall v l f c ap hb e (tl : list byte),
-            firstn 4 (skipn 12 ([v] ++ be24 l ++ [f] ++ be24 c ++ be32 ap ++ be32 hb ++ be32 e ++ tl)) = be32 hb) by reflexivity.
-  rewrite <- !app_assoc in Eb. rewrite !G in Eb.
-  apply (f_equal un_be) in Eb. rewrite !un_be32 in Eb by assumption. symmetry. exact Eb.
 Qed.
 
 Section EndToEnd.
